@@ -4,7 +4,7 @@ from vf.core import Suite
 from vf.gen import rbytes, pick_weighted, all_strings
 
 ID = "C14"
-THEOREMS = ["C14_refused"]
+THEOREMS = ["C14_refused", "C14_confined", "C14_guard_sound", "C14_hfs_fold_spec", "C14_ntfs_fold_spec"]
 MODEL_FILES = ["RefStrings.v", "RefName.v", "RefGuard.v", "RefStore.v", "RefPaths.v"]
 MODELLED = ("plumbing/reference.go ReferenceName.IsSafe; storage/filesystem/dotgit validReferenceName with internal/pathutil IsHFSDot(part, \".\") "
             "and IsNTFSDot(part, \".\", \"\") (Model/RefGuard.v; the rune loop of IsHFSDot as a byte loop over the UTF-8 encodings of the sixteen "
